@@ -24,6 +24,12 @@ class Prop:
     rule = ""
     translators = []          # callables run before the Coq build (regenerate Generated/*.v)
     search_seeds = 4
+    search_n = 2000
+    has_cases = True
+
+    def generate(self, wd, seed, n, tier, only):
+        """Python-side case generation for properties whose implementation is the CLI binary."""
+        raise NotImplementedError
 
     def extra(self, ctx):
         """Optional Python-level exploration (CLI runs...). Returns list of violation dicts."""
@@ -53,6 +59,8 @@ def workdir(pid, tier, tag=""):
 
 
 def generate(prop, wd, seed, n, tier, only=None, extra_args=()):
+    if prop.harness_cmd is None:
+        return prop.generate(wd, seed, n, tier, only)
     cmd = [core.HARNESS_BIN, prop.harness_cmd, "--seed", str(seed), "--n", str(n),
            "--shards", "16", "--out", wd] + list(extra_args)
     if tier == "thorough":
@@ -144,7 +152,7 @@ def run(prop, tier, seed, replay=None):
     results, descs, errors = {}, {}, []
     n = prop.n[tier]
     hist = {}
-    if hok and prop.harness_cmd:
+    if hok and prop.has_cases:
         wd = workdir(pid, tier)
         gok, gout = generate(prop, wd, seed, n, tier, extra_args=prop.harness_args(ctx))
         if not gok:
@@ -201,11 +209,11 @@ def run(prop, tier, seed, replay=None):
     searched = 0
     need_search = (corr_broken or any(not v["found_input"] for v in violations)) and \
         not any(v["found_input"] for v in violations)
-    if need_search and hok and prop.harness_cmd:
+    if need_search and hok and prop.has_cases:
         for k in range(1, prop.search_seeds + 1):
             s2 = seed * 1000003 + k
             wd2 = workdir(pid, tier, "-search%d" % k)
-            gok, _ = generate(prop, wd2, s2, max(n, 2000), tier, extra_args=prop.harness_args(ctx))
+            gok, _ = generate(prop, wd2, s2, max(n, prop.search_n), tier, extra_args=prop.harness_args(ctx))
             if not gok:
                 break
             r2, _ = core.run_shards(wd2)
@@ -215,7 +223,7 @@ def run(prop, tier, seed, replay=None):
             if hit:
                 i, c = hit[0]
                 rp = replay_path(pid, "case%d-seed%d" % (i, s2))
-                core.write_json(rp, {"property": pid, "seed": s2, "tier": tier, "n": max(n, 2000),
+                core.write_json(rp, {"property": pid, "seed": s2, "tier": tier, "n": max(n, prop.search_n),
                                      "case": i, "code": c, "what": names_of(prop, c), "input": d2.get(i)})
                 violations.append({"kind": "spec", "replay": rp, "found_input": True,
                                    "text": "search found %s on case %d: %s" % (names_of(prop, c), i, core.short(d2.get(i)))})
